@@ -40,3 +40,9 @@ def match(kf, v, z):
             continue
         return f
     return None
+
+
+@predicate('model_flag')
+def _model_flag(v, z, f):
+    """the reference model met the structural situation named by the finding while replaying this execution"""
+    return any(fl.startswith(f['flag']) for fl in v.get('model_flags', []))
